@@ -96,6 +96,11 @@ def varg(vid, kw=None):
     return {"k": "var", "var": vid, "kw": kw}
 
 
+def callarg(fid, kw=None):
+    """An argument that is itself a call `f()` written inside the argument list."""
+    return {"k": "callarg", "fn": fid, "kw": kw}
+
+
 def s_call(fid, args=()):
     return {"k": "call", "fn": fid, "args": list(args)}
 
@@ -254,6 +259,8 @@ def _arg_src(ctx, fn, a):
         s = a["name"]
     elif a["k"] == "var":
         s = ctx.var_expr(a["var"], "bare")
+    elif a["k"] == "callarg":
+        s = ctx.fn_expr(a["fn"]) + "()"
     else:
         raise ValueError(a)
     return ("%s=%s" % (a["kw"], s)) if a.get("kw") else s
@@ -420,6 +427,9 @@ def fn_text(p, fid):
 def refs_of(p, fid):
     out = []
     for s in p["fns"][fid]["stmts"]:
+        for a in s.get("args", []):
+            if a["k"] == "callarg":
+                out.append(a["fn"])
         if s["k"] in ("call", "keep", "ref"):
             out.append(s["fn"])
         if s["k"] == "method":
